@@ -34,6 +34,8 @@ ASSUMPTIONS = [
     'sub-directory updates are judged inside the updated directory plus the MANIFEST chain above it',
     'one small base tree (4 files, 3 directories, nesting 2); contents incl. an empty file',
     'interface cli_create: `gemato create` run on the root of a tree that already carries Manifests (every prior state)',
+    'interface lib_twice: update_entries_for_directory called two or three times on one loader (a sub-directory, the '
+    'target, the target again) before ONE save_manifests()',
     'interface lib_same: the two rounds of a history run on ONE loader object (update+save, edit, update+save), with '
     'options under which the first save renames Manifests (compression / decompression) and without',
 ]
@@ -113,7 +115,7 @@ def apply_edit_disk(root, edit):
 def run_update(root, iface, upath, o, create, keep=None):
     """keep: dict carried across the rounds of one history; with iface 'lib_same' the loader object created in
     the first round is REUSED for every later round (a long-lived loader), otherwise each round builds its own."""
-    if iface in ('lib', 'lib_same'):
+    if iface in ('lib', 'lib_same', 'lib_twice'):
         def go():
             if iface == 'lib_same' and keep is not None and keep.get('loader') is not None:
                 m = keep['loader']
@@ -135,6 +137,11 @@ def run_update(root, iface, upath, o, create, keep=None):
             m = gem.loader(root, TOP, **kw)
             if iface == 'lib_same' and keep is not None:
                 keep['loader'] = m
+            if iface == 'lib_twice':
+                # several update calls before ONE save: a sub-directory first (if there is one), then the target
+                if os.path.isdir(os.path.join(root, 'd')) and upath in ('', 'd'):
+                    m.update_entries_for_directory('d')
+                m.update_entries_for_directory(upath)
             m.update_entries_for_directory(upath)
             m.save_manifests(force=o['force'])
             return 0
@@ -319,8 +326,11 @@ def run_shard(spec, tier, seed, scratch):
     tj = tree.to_json()
     opts = OPTS_QUICK if tier == 'quick' else opts_all()
     edits = scen.EDITS
-    for edit, upath, (oi, o), iface in itertools.product(edits, TARGETS, enumerate(opts), ('lib', 'cli', 'cli_create')):
+    for edit, upath, (oi, o), iface in itertools.product(edits, TARGETS, enumerate(opts),
+                                                        ('lib', 'cli', 'cli_create', 'lib_twice')):
         if tier == 'quick' and iface != 'lib' and oi not in (0, 3, 6):
+            continue
+        if iface == 'lib_twice' and tier == 'quick' and (upath not in ('', 'd') or edit not in ('none', 'alter_size', 'add_dir')):
             continue
         if iface == 'cli_create' and (upath or (tier == 'quick' and edit not in ('none', 'alter_size', 'add_dir'))):
             continue        # `gemato create` on a tree that already has Manifests: whole tree only
